@@ -177,7 +177,8 @@ def peer_roles(tu):
       slot        the one pointer member of null_on_move (monitor slot inside a watched object)
       back        lifetime_monitor's reference / pointer to that slot
       prev_tracer tracer's pointer to the previously active tracer
-      seq_ref     sequence_matcher's reference to its sequence_type"""
+      seq_ref     sequence_matcher's reference to its sequence_type
+      handler_ref sequence_matcher's reference to the handler (counters) of its own expectation"""
     import re as _re
     r = tu.__dict__.get("_peer_roles")
     if r is not None:
@@ -197,7 +198,9 @@ def peer_roles(tu):
             ("back", NS + "lifetime_monitor",
              lambda t: _re.match(r"(trompeloeil::)?lifetime_monitor \*\s*(&|\*)\s*(const)?$", t) is not None),
             ("prev_tracer", NS + "tracer", lambda t: _re.match(r"(trompeloeil::)?tracer \*(\s*const)?$", t) is not None),
-            ("seq_ref", NS + "sequence_matcher", lambda t: _re.match(r"(trompeloeil::)?sequence_type\s*(&|\*)", t) is not None)):
+            ("seq_ref", NS + "sequence_matcher", lambda t: _re.match(r"(trompeloeil::)?sequence_type\s*(&|\*)", t) is not None),
+            ("handler_ref", NS + "sequence_matcher",
+             lambda t: _re.match(r"(const )?(trompeloeil::)?sequence_handler_base\s*(const\s*)?(&|\*)", t) is not None)):
         h = fields(cq, pred)
         if len(h) == 1:
             out[role] = h[0]
@@ -260,6 +263,26 @@ def is_set_reported(tu, ev):
     if isinstance(rhs, list) and rhs[:1] == ["bool"]:
         return bool(rhs[1]) == val
     return None
+
+
+def resolve(fn, t, depth=0):
+    """follow single-definition local aliases: (T)x, *&x, a local whose only definition is an initialisation -> what
+    it was initialised from (used to compare a receiver / argument with a member whatever local names it was given)"""
+    t = strip_casts(t)
+    while isinstance(t, list) and t[:2] == ["u", "*"] and isinstance(t[2], list) and t[2][:2] == ["u", "&"]:
+        t = strip_casts(t[2][2])
+    if depth < 5 and isinstance(t, list):
+        if t[:1] == ["var"]:
+            defs = [e for b, e in fn.events() if (e["e"] == "decl" and e.get("var") == t[1]) or
+                    (e["e"] == "assign" and isinstance(e.get("lhs"), list) and e["lhs"][:2] == ["var", t[1]])]
+            if len(defs) == 1 and defs[0]["e"] == "decl" and defs[0].get("init") is not None:
+                return resolve(fn, defs[0]["init"], depth + 1)
+        if t[:2] == ["u", "*"] or t[:2] == ["u", "&"]:
+            inner = resolve(fn, t[2], depth + 1)
+            if isinstance(inner, list) and ((t[1] == "*" and inner[:2] == ["u", "&"]) or (t[1] == "&" and inner[:2] == ["u", "*"])):
+                return resolve(fn, inner[2], depth + 1)
+            return ["u", t[1], inner]
+    return t
 
 
 def strip_elidable(t):
